@@ -133,6 +133,7 @@ OVERLAYS = {
     "snaps_diff_test.go": ("snaps", "zz_verif_diff_test.go"),
     "snaps_yaml_test.go": ("snaps", "zz_verif_yaml_test.go"),
     "snaps_clean_test.go": ("snaps", "zz_verif_clean_test.go"),
+    "snaps_runfilter_test.go": ("snaps", "zz_verif_runfilter_test.go"),
     "snaps_c11_test.go": ("snaps", "zz_verif_c11_test.go"),
     "snaps_helper_nontest.go": ("snaps", "zz_verif_helper_nontest.go"),
     "snaps_sched_nontest.go": ("snaps", "zz_verif_sched_nontest.go"),
